@@ -140,7 +140,7 @@ func (c *Client) httpClient(local string) *http.Client {
 			DisableCompression:  true,
 		},
 		CheckRedirect: func(*http.Request, []*http.Request) error { return http.ErrUseLastResponse },
-		Timeout:       20 * time.Second,
+		Timeout:       60 * time.Second,
 	}
 	c.clients[local] = cl
 
